@@ -343,5 +343,6 @@ Example ex_reconfigure :
   snd (spec_run hk0 None ex_ops3) = ex_outs3.
 Proof.
   split; [|split]; try (vm_compute; reflexivity).
-  cbn [ex_ops3 wf_hist]. splits; try exact Logic.I; try reflexivity; try wf_ins; vm_compute; reflexivity.
+  cbn [ex_ops3 wf_hist]. splits; vm_compute;
+    first [exact Logic.I | reflexivity | (let sp := fresh "sp" in let H := fresh "H" in intros sp H; inversion H; subst; reflexivity)].
 Qed.
